@@ -119,6 +119,12 @@ class SensorConfigBase(BaseModel, ABC):
     field_of_view: FieldOfViewConfig = Field(default_factory=RectangularFieldOfViewConfig)
     R""":class:`.FieldOfViewConfig`, optional: FOV type size to use in calculating visibility. Defaults to a rectangular FOV with default angles."""
 
+    @field_validator("elevation_range")
+    @classmethod
+    def order_elevation_range(cls, v):
+        """The elevation range is order independent: keep it as [lower, upper], which :class:`.Sensor` expects."""
+        return sorted(v)
+
 
 class OpticalConfig(SensorConfigBase):
     R"""Configuration object for a :class:`.Optical`."""
